@@ -13,7 +13,27 @@ Ts == 1..NT
 Gone == <<-1>>
 Wr(t) == 64 + t
 Init0 == [kind |-> "none", val |-> [t \in Ts |-> <<Gone, Gone>>], dcount |-> <<0, 0>>, pend |-> [t \in Ts |-> "none"]]
-InitVal(kind) == IF kind = "ptr" THEN << <<1>>, <<2>> >> ELSE << <<112, 49>>, <<113, 50>> >>
+\* container kinds (Variants sharing an Array / List / HashMap payload): marker followed by the elements' bytes
+\* xtext / xelem: Xml::Variant handles sharing a text / an element payload (element: marker -6, then the bytes of its type)
+Marker(kind) == CASE kind = "varr" -> -3 [] kind = "vlist" -> -4 [] kind = "vmap" -> -5 [] kind = "xelem" -> -6 [] OTHER -> 0
+IsCont(kind) == kind \in {"varr", "vlist", "vmap", "xelem"}
+IsText(kind) == kind \in {"string", "variant"}
+InitVal(kind) == IF kind = "ptr" THEN << <<1>>, <<2>> >>
+                 ELSE IF IsCont(kind) THEN << <<Marker(kind), 112>>, <<Marker(kind), 113>> >>
+                 ELSE << <<112, 49, 32>>, <<113, 50, 32>> >>        \* string, variant, xtext
+\* the string a text handle holds when it is written through (a Variant holding a list becomes the empty string first)
+Base(x) == IF x # <<>> /\ x[1] = -2 THEN <<>> ELSE x
+RECURSIVE TrimL(_), TrimR(_)
+TrimL(x) == IF x # <<>> /\ x[1] = 32 THEN TrimL(Tail(x)) ELSE x
+TrimR(x) == IF x # <<>> /\ x[Len(x)] = 32 THEN TrimR(SubSeq(x, 1, Len(x) - 1)) ELSE x
+DropLast(x) == IF x = <<>> THEN x ELSE SubSeq(x, 1, Len(x) - 1)
+Upper(x) == [i \in 1..Len(x) |-> IF x[i] >= 97 /\ x[i] <= 122 THEN x[i] - 32 ELSE x[i]]
+\* wa / wb on the three kinds of values
+Write(kind, x, t) ==
+  IF IsCont(kind) THEN LET c == IF x = <<>> THEN <<Marker(kind)>> ELSE x IN      \* a cleared Variant becomes an empty container
+                       IF kind = "vmap" /\ \E i \in 2..Len(c) : c[i] = Wr(t) THEN c ELSE Append(c, Wr(t))
+  ELSE Append(Base(x), Wr(t))
+Access(kind, x) == IF IsCont(kind) THEN (IF x = <<>> THEN <<Marker(kind)>> ELSE x) ELSE Base(x)
 
 \* the effect of operation f of thread t on its own two handles
 Apply(kind, v, t, f) ==
@@ -21,8 +41,17 @@ Apply(kind, v, t, f) ==
   CASE f = "aeqb" -> IF a # Gone /\ b # Gone THEN <<b, b>> ELSE v
     [] f = "beqa" -> IF a # Gone /\ b # Gone THEN <<a, a>> ELSE v
     [] f = "aeqa" -> v                                     \* self-assignment changes nothing
-    [] f = "wa" -> IF a # Gone /\ kind # "ptr" THEN <<Append(IF a # <<>> /\ a[1] = -2 THEN <<>> ELSE a, Wr(t)), b>> ELSE v
-    [] f = "wb" -> IF b # Gone /\ kind # "ptr" THEN <<a, Append(IF b # <<>> /\ b[1] = -2 THEN <<>> ELSE b, Wr(t))>> ELSE v
+    [] f = "wa" -> IF a # Gone /\ kind # "ptr" THEN <<Write(kind, a, t), b>> ELSE v
+    [] f = "wb" -> IF b # Gone /\ kind # "ptr" THEN <<a, Write(kind, b, t)>> ELSE v
+    \* the mutable accessor alone, and in-place modifications of a text value: trim, drop the last byte, upper case
+    [] f = "ga" -> IF a # Gone /\ kind \notin {"ptr", "string", "xtext"} THEN <<Access(kind, a), b>> ELSE v
+    [] f = "gb" -> IF b # Gone /\ kind \notin {"ptr", "string", "xtext"} THEN <<a, Access(kind, b)>> ELSE v
+    [] f = "ta" -> IF a # Gone /\ IsText(kind) THEN <<TrimR(TrimL(Base(a))), b>> ELSE v
+    [] f = "tb" -> IF b # Gone /\ IsText(kind) THEN <<a, TrimR(TrimL(Base(b)))>> ELSE v
+    [] f = "za" -> IF a # Gone /\ IsText(kind) THEN <<DropLast(Base(a)), b>> ELSE v
+    [] f = "zb" -> IF b # Gone /\ IsText(kind) THEN <<a, DropLast(Base(b))>> ELSE v
+    [] f = "ua" -> IF a # Gone /\ IsText(kind) THEN <<Upper(Base(a)), b>> ELSE v
+    [] f = "ub" -> IF b # Gone /\ IsText(kind) THEN <<a, Upper(Base(b))>> ELSE v
     [] f = "ca" -> IF a # Gone THEN <<IF kind = "ptr" THEN <<0>> ELSE <<>>, b>> ELSE v
     [] f = "cb" -> IF b # Gone THEN <<a, IF kind = "ptr" THEN <<0>> ELSE <<>>>> ELSE v
     \* Variant only: la/lb wrap the value into a one-element list (<<-2>> \o bytes); oa/ob assign the handle the first
